@@ -8,6 +8,7 @@ mod c06;
 mod c13;
 mod c14;
 mod c18;
+mod c19;
 mod genr;
 mod rng;
 mod util;
@@ -32,6 +33,9 @@ fn main() {
         "c13" => c13::run(&args[2..]),
         "c14" => c14::run(&args[2..]),
         "c18" => c18::run(&args[2..]),
+        "c19" => c19::run(&args[2..]),
+        "c19child" => c19::child(&args[2..]),
+        "c19limit" => c19::child_limit(&args[2..]),
         other => {
             eprintln!("unknown property {other}");
             2
